@@ -284,4 +284,19 @@ example : mustRequested { exCfg with paths := [["skipme"]] } {} exTreeSub ["skip
 example : subdirHyp exCfg {} exTree ["a"] = true ∧ subdirHyp exCfg {} exTree ["skipme"] = true ∧
     subdirHyp exCfg {} exTreeSub ["skipme", "sub"] = false ∧ distinctB exTree = true := by decide
 
+/-! ### Disclosed reading / finding candidate: NESTED requested paths under the sub-directory cut-off
+
+`shouldSkipDir` (and `excludedDir`, which is its definition of "configured skip rule") exempts from the cut-off every directory
+that is ITSELF a requested path, wherever the walk comes from.  With `PathsToExtract = [a, a/b]` and `IgnoreSubDirs` the walk of
+request `a` therefore enters `a/b`, and the files directly in `a/b` are owed — and extracted — TWICE: once through `a` (which
+the cut-off should have stopped at `a/b`) and once through `a/b`.  Below `a/b` the cut-off works (`a/b/c/h` is owed by nobody).
+Engine = specification here (`C01_calls_benign`), so no stream can see it; against the property's "exactly once, per explicitly
+requested path that reaches it" the first of the two extractions is one too many (request `a`, cut off, does not reach `a/b/g`).
+Reported to the coordinator as a finding candidate (repair: compare with the CURRENT walk root instead of the whole list). -/
+def exNested : Node := .dir none [("a", .dir none [("f", .file .reg 1), ("b", .dir none [("g", .file .reg 1), ("c", .dir none [("h", .file .reg 1)])])])]
+def exNestedCfg : Cfg := { nExt := 1, required := fun _ _ => true, extract := fun _ _ => {}, paths := [["a"], ["a", "b"]], ignoreSubDirs := true,
+                           giMatch := fun _ _ _ _ => false }
+theorem C01_nested_requests_cutoff_witness :
+    (mustExtract exNestedCfg [(exNested, {})]).map (·.path) = [["a", "f"], ["a", "b", "g"], ["a", "b", "g"]] := by decide
+
 end Scalibr.Walk
